@@ -353,6 +353,7 @@ package template
 //@   serves C03 C02
 //@   ensures total: isnil(err)
 //@   ensures always: len(args) == 1 && 1 <= basetag(at(args, 0)) && basetag(at(args, 0)) <= 9 ==> seqeq(r, urlsetsan(contents(at(args, 0))))
+//@   ensures canonical: inlang(SrcsetCanon, r)
 
 //@ func sanitizeAsyncEnum(args ...interface{}) (r string, err error)
 //@   serves C03 C04
